@@ -21,6 +21,39 @@ CLAIMS: dict[str, tuple[str, str, str, str]] = {
         'conversions (value arithmetic). Axioms: durations are >= 0; x - floor(x) in [0,1). '
         'Trusted: CPython ast, re._parser.',
         'DESIGN.md section 4, C19'),
+    'C03': (
+        'binary layout extraction (reader/writer agreement) + data-dependence and path rules over the segment handler',
+        'Decides the structural protocol that makes a rewritten segment point at its payload, for '
+        'every stored segment and option vector: the parse and encode sides of every box the '
+        'handler re-encodes (tfhd tfdt trun samples saiz saio senc/PIFF mfhd emsg sidx styp) agree '
+        'field by field; the recomputed trun.data_offset / saio.offsets / tfhd.base_data_offset '
+        'depend on final positions (moof.position, moof.size, mdat.header_size, senc.position) and '
+        'are rewritten in place with the stream position restored; the saio rewrite can only be '
+        'skipped under the `saio` bug option; nothing writes to the encoded bytes between encode() '
+        'and getvalue() except the guarded corruption hook; every path of generate_media_segment '
+        'that inserts a box (emsg before moof, tfdt or PIFF into traf) reaches the reset of '
+        'tfhd.base_data_offset / the forcing of trun.data_offset before encode (boolean flag '
+        'propagation over all paths); the edit API invalidates caches and propagates sizes.',
+        'Not decided: byte identity of mdat, the numerical value of an offset for a given file. '
+        'Trusted: the layout idiom table of the extractor (classes it cannot model are reported '
+        'by name and the analysed count has a floor).',
+        'DESIGN.md section 4, C03'),
+    'C04': (
+        'binary layout extraction: parse-side and encode-side layout trees aligned item by item',
+        'For each of the codec classes of mp4.py that own a parse/encode pair (floor 44, discovered '
+        'from the source so a new box class is covered) the reader and writer bodies are turned '
+        'into layout trees - bit width, signedness, guard normal form, loops, nested codecs, '
+        'super() chains and helpers inlined - and must agree in order, width, sign, guards and '
+        'repetition for every field value; reserved bytes the reader discards must be regenerated '
+        'as all-zero/all-one constants; byte-string fields must be declared Binary/HexBinary; the '
+        'edit API must invalidate cached encodings and propagate size deltas, and encode() must '
+        'back-patch sizes before the post-encode fix-ups; the box header reader/writer must agree; '
+        'FieldReader.read() results must not be used as values. This is the reader/writer '
+        'agreement that byte-exact round-tripping needs, decided for all inputs.',
+        'Not decided: equality of values (floats, dates), lazy vs eager field equality, the JSON '
+        'round trip as a whole, bounded edit sequences. Guard linkages accepted: presence tests on '
+        'the writer side (`x is not None`, `\'x\' in _fields`) against any reader-side condition.',
+        'DESIGN.md section 4, C04'),
     'C05': (
         'Jinja2 template-AST analysis with an XML-context tokenizer + sanitiser-strength rules',
         'All nine .mpd templates, the patch template and the files they include are parsed (never '
@@ -69,6 +102,21 @@ CLAIMS: dict[str, tuple[str, str, str, str]] = {
         "Axioms: pieces of split('-') parse to ints >= 0 or raise ValueError; length >= 0. "
         'Trusted: CPython ast; the zone closure. Not decided: equality of the body bytes.',
         'DESIGN.md section 4, C13'),
+    'C14': (
+        'binary layout extraction for SCTE-35/emsg + syntactic width-bound and loop-guard rules',
+        'Layout agreement (encode then parse is the identity as far as order/width/sign/guards go) '
+        'for the 15 SCTE-35 codec classes, the MPEG section framing and EventMessageBox v0/v1; '
+        'codec protocol lint (dispatcher calls a method every subclass defines with the right '
+        'arity, write_bytes argument roles, parse() returns its dict on every path); every value '
+        'create_binary_signal passes into a fixed-width field must be a constant, bool, masked, '
+        'reduced or clamped expression of that width; the emsg time kwarg set per version is the '
+        'field that version encodes and v0 is the delta from the segment start; the event loop '
+        'step and every division by the interval sit behind a `interval <= 0` refusal; the '
+        'out-of-band listing enumerates ids 0..count-1 from start in steps of interval.',
+        'Not decided: exactly-once selection of events per segment (boundary arithmetic), CRC '
+        'values. Many SCTE-35 codec asymmetries are genuine and recorded as known findings (the '
+        'server only emits splice_insert + segmentation descriptor without components).',
+        'DESIGN.md section 4, C14'),
     'C15': (
         'route-table enumeration + decorator-stack normalisation + call-graph effect analysis + must-fact path rules',
         'For every (route, HTTP verb) pair read from routes.py (146 pairs, handlers resolved along '
